@@ -108,7 +108,7 @@ def mutant_table():
     rows = []
     if os.path.exists(p):
         for line in open(p, errors="replace"):
-            m = re.match(r"(CAUGHT|MISSED|TROUBLE) (\S+?):?\s*(?:oracle=(\S+))?", line.strip())
+            m = re.match(r"(CAUGHT|MISSED|TROUBLE) ([^\s:]+):?\s*(?:oracle=(\S+))?", line.strip())
             if not m or m.group(2).startswith("seeded/"):
                 continue
             rows.append((m.group(2), m.group(1), m.group(3) or ""))
@@ -126,7 +126,7 @@ def seed_table():
     p = os.path.join(HERE, "mutants", "RESULTS.txt")
     if os.path.exists(p):
         for line in open(p, errors="replace"):
-            m = re.match(r"(CAUGHT|MISSED|TROUBLE) seeded/(\S+?):?\s*(?:oracle=(\S+))?", line.strip())
+            m = re.match(r"(CAUGHT|MISSED|TROUBLE) seeded/([^\s:]+):?\s*(?:oracle=(\S+))?", line.strip())
             if m:
                 now[m.group(2)] = (m.group(1), m.group(3) or "")
     out = ["| seed | what the change does | first | now | oracle that fires |", "|---|---|---|---|---|"]
